@@ -10,6 +10,7 @@
 -/
 import Plonk.Proofs.PointGadgets
 import Plonk.Proofs.TorsionFreeExt
+import Plonk.Proofs.EdwardsExamples
 
 set_option linter.unusedSimpArgs false
 
@@ -687,6 +688,448 @@ theorem assertTorsionFreePoint_sound (H : JubjubGroupFacts) (P : Pt) (c : Compos
     OnCurveP (ptW w P) ∧ smulF RJ (ptW w P) = idF := by
   obtain ⟨hQ, -, h8⟩ := (assertTorsionFreePoint_rows_iff P c h w).mp hr
   exact (H.mem_eight_iff _).mp ⟨_, hQ, h8⟩
+
+/-! ### host-side decision logic of the point entry points -/
+
+/-- state after `append_point` of the affine point `a` -/
+def apS (a : Pt) (c : Composer) : Composer :=
+  ((appendWitness a.2).run ((appendWitness a.1).run c).2).2
+
+theorem appendAffinePoint_run (a : Pt) (c : Composer) :
+    (appendAffinePoint a).run c = ((c.wit.size, c.wit.size + 1), apS a c) := by
+  unfold appendAffinePoint apS
+  rw [run_bind', run_bind']
+  simp
+  rfl
+
+theorem apS_eq_tfS1 (a : Pt) (c : Composer) : apS a c = tfS1 a c := rfl
+
+theorem apS_appends (a : Pt) (c : Composer) : Appends c (apS a c) 0 2 := tfS1_appends a c
+theorem apS_wf (a : Pt) (c : Composer) (h : WF c) : WF (apS a c) := tfS1_wf a c h
+theorem apS_val0 (a : Pt) (c : Composer) : (apS a c).val c.wit.size = a.1 % R := tfS1_val0 a c
+theorem apS_val1 (a : Pt) (c : Composer) : (apS a c).val (c.wit.size + 1) = a.2 % R :=
+  tfS1_val1 a c
+
+/-- the values stored by `append_point e` are the affine coordinates `(U/Z, V/Z)` -/
+theorem apS_ptW (e : Ext) (c : Composer) :
+    ptW (apS e.aff c).val (c.wit.size, c.wit.size + 1) = e.affF := by
+  rw [ptW_mk, apS_val0, apS_val1, toF_mod, toF_mod, ← Ext.toFP_aff]; rfl
+
+/-- **`append_point`**: `Z = 0` ⇒ `JubJubPointDegenerate`, state unchanged; otherwise the two
+    affine coordinates are allocated (no gate). -/
+theorem appendPoint_run (e : Ext) (c : Composer) :
+    (appendPoint e).run c =
+      if e.z = 0 then (.error .degenerate, c)
+      else (.ok (c.wit.size, c.wit.size + 1), apS e.aff c) := by
+  unfold appendPoint
+  by_cases h : e.z = 0
+  · rw [(Ext.toAffine?_eq_none_iff e).mpr h, if_pos h]; rfl
+  · rw [Ext.toAffine?_of_ne h, if_neg h]
+    show (appendAffinePoint e.aff >>= fun w => pure (Except.ok w)).run c = _
+    rw [run_bind', appendAffinePoint_run]; rfl
+
+/-- state after `append_constant_point` succeeded -/
+def acpS (a : Pt) (c : Composer) : Composer :=
+  ((appendConstant a.2).run ((appendConstant a.1).run c).2).2
+
+theorem acpS_appends (a : Pt) (c : Composer) : Appends c (acpS a c) 2 2 :=
+  (appendConstant_appends a.1 c).trans (appendConstant_appends a.2 _)
+
+theorem acpS_wf (a : Pt) (c : Composer) (h : WF c) : WF (acpS a c) :=
+  appendConstant_wf _ _ (appendConstant_wf _ _ h)
+
+/-- **`append_constant_point`**: `Z = 0` ⇒ `JubJubPointDegenerate`; else not (on curve and
+    torsion free) ⇒ `JubJubPointNotTorsionFree`; state unchanged on error; otherwise two
+    `append_constant` rows. -/
+theorem appendConstantPoint_run (e : Ext) (c : Composer) :
+    (appendConstantPoint e).run c =
+      if e.z = 0 then (.error .degenerate, c)
+      else if (e.onCurve && e.torsionFree) = false then (.error .notTorsionFree, c)
+      else (.ok (c.wit.size, c.wit.size + 1), acpS e.aff c) := by
+  unfold appendConstantPoint
+  by_cases h : e.z = 0
+  · rw [(Ext.toAffine?_eq_none_iff e).mpr h, if_pos h]; rfl
+  · rw [Ext.toAffine?_of_ne h, if_neg h]
+    by_cases h2 : (e.onCurve && e.torsionFree) = false
+    · rw [if_pos h2]; simp only [h2]; rfl
+    · rw [if_neg h2]
+      have h3 : (e.onCurve && e.torsionFree) = true := by simpa using h2
+      simp only [h3]
+      show (appendConstant e.aff.1 >>= fun x => appendConstant e.aff.2 >>= fun y =>
+        pure (Except.ok (x, y))).run c = _
+      rw [run_bind', run_bind', appendConstant_fst, appendConstant_fst]
+      have : ((appendConstant e.aff.1).run c).2.wit.size = c.wit.size + 1 :=
+        (appendConstant_appends _ c).wit
+      rw [this]; rfl
+
+/-- on success the two rows pin the allocated wires to the affine constant -/
+theorem acpS_rows_iff (a : Pt) (c : Composer) (h : WF c) (w : Nat → Nat) :
+    (acpS a c).rowsHoldW w c.gates.size (acpS a c).gates.size ↔
+      ptW w (c.wit.size, c.wit.size + 1) = toFP a := by
+  have h1 := appendConstant_appends a.1 c
+  have h2 := appendConstant_appends a.2 ((appendConstant a.1).run c).2
+  unfold acpS
+  rw [h1.rows_split h2 w, appendConstant_rows_iff a.1 c h,
+    appendConstant_rows_iff a.2 _ (appendConstant_wf _ _ h), h1.wit, ptW_mk]
+  unfold toFP
+  rw [Prod.mk.injEq]
+
+theorem acpS_honest (a : Pt) (c : Composer) (h : WF c) :
+    (acpS a c).rowsHoldW (acpS a c).val c.gates.size (acpS a c).gates.size := by
+  have h1 := appendConstant_appends a.1 c
+  have h2 := appendConstant_appends a.2 ((appendConstant a.1).run c).2
+  unfold acpS
+  rw [h1.rows_split h2]
+  exact ⟨appendConstant_honest_ext a.1 c h h2.ext,
+    appendConstant_honest a.2 _ (appendConstant_wf _ _ h)⟩
+
+/-- state after `append_public_point` succeeded -/
+def appS (a : Pt) (c : Composer) : Composer :=
+  ((assertEqualConstant (c.wit.size + 1) 0 (some a.2)).run
+    ((assertEqualConstant c.wit.size 0 (some a.1)).run (apS a c)).2).2
+
+/-- **`append_public_point`**: `Z = 0` ⇒ `JubJubPointDegenerate`, state unchanged; otherwise the
+    affine coordinates are allocated and pinned to two public inputs. -/
+theorem appendPublicPoint_run (e : Ext) (c : Composer) :
+    (appendPublicPoint e).run c =
+      if e.z = 0 then (.error .degenerate, c)
+      else (.ok (c.wit.size, c.wit.size + 1), appS e.aff c) := by
+  unfold appendPublicPoint
+  by_cases h : e.z = 0
+  · rw [(Ext.toAffine?_eq_none_iff e).mpr h, if_pos h]; rfl
+  · rw [Ext.toAffine?_of_ne h, if_neg h]
+    show (appendAffinePoint e.aff >>= fun w =>
+      assertEqualConstant w.1 0 (some e.aff.1) >>= fun _ =>
+      assertEqualConstant w.2 0 (some e.aff.2) >>= fun _ => pure (Except.ok w)).run c = _
+    rw [run_bind', appendAffinePoint_run]; rfl
+
+theorem appS_appends (a : Pt) (c : Composer) : Appends c (appS a c) 2 2 :=
+  ((apS_appends a c).trans (assertEqualConstant_appends _ _ _ _)).trans
+    (assertEqualConstant_appends _ _ _ _)
+
+theorem appS_rows_iff (a : Pt) (c : Composer) (h : WF c) (w : Nat → Nat) :
+    (appS a c).rowsHoldW w c.gates.size (appS a c).gates.size ↔
+      ptW w (c.wit.size, c.wit.size + 1) = toFP a := by
+  have h1 := assertEqualConstant_appends c.wit.size 0 (some a.1) (apS a c)
+  have h2 := assertEqualConstant_appends (c.wit.size + 1) 0 (some a.2)
+    ((assertEqualConstant c.wit.size 0 (some a.1)).run (apS a c)).2
+  have e : c.gates.size = (apS a c).gates.size := rfl
+  unfold appS
+  rw [e, h1.rows_split h2 w, assertEqualConstant_rows_iff _ _ _ _ (apS_wf a c h),
+    assertEqualConstant_rows_iff _ _ _ _ (assertEqualConstant_wf _ _ _ _ (apS_wf a c h)), ptW_mk]
+  unfold toFP pubF
+  simp only [toF_zero, zero_add]
+  rw [Prod.mk.injEq]
+
+/-- state after `assert_equal_public_point` succeeded -/
+def aeppS (p a : Pt) (c : Composer) : Composer :=
+  ((assertEqualConstant p.2 0 (some a.2)).run ((assertEqualConstant p.1 0 (some a.1)).run c).2).2
+
+/-- **`assert_equal_public_point`**: `Z = 0` ⇒ `JubJubPointDegenerate`, state unchanged;
+    otherwise two public-input rows. -/
+theorem assertEqualPublicPoint_run (p : Pt) (e : Ext) (c : Composer) :
+    (assertEqualPublicPoint p e).run c =
+      if e.z = 0 then (.error .degenerate, c) else (.ok (), aeppS p e.aff c) := by
+  unfold assertEqualPublicPoint
+  by_cases h : e.z = 0
+  · rw [(Ext.toAffine?_eq_none_iff e).mpr h, if_pos h]; rfl
+  · rw [Ext.toAffine?_of_ne h, if_neg h]; rfl
+
+theorem aeppS_rows_iff (p a : Pt) (c : Composer) (h : WF c) (w : Nat → Nat) :
+    (aeppS p a c).rowsHoldW w c.gates.size (aeppS p a c).gates.size ↔ ptW w p = toFP a := by
+  have h1 := assertEqualConstant_appends p.1 0 (some a.1) c
+  have h2 := assertEqualConstant_appends p.2 0 (some a.2)
+    ((assertEqualConstant p.1 0 (some a.1)).run c).2
+  unfold aeppS
+  rw [h1.rows_split h2 w, assertEqualConstant_rows_iff _ _ _ _ h,
+    assertEqualConstant_rows_iff _ _ _ _ (assertEqualConstant_wf _ _ _ _ h)]
+  unfold toFP pubF ptW
+  simp only [toF_zero, zero_add]
+  rw [Prod.mk.injEq]
+
+/-! ### `component_mul_generator`: host-side checks -/
+
+/-- possible outcomes of `append_fixed_base_signed_digits` -/
+def FbOutcome (r : Except CErr Pt) : Prop := r = .error .unsupportedWnaf ∨ ∃ p, r = .ok p
+
+theorem bind_outcome {α : Type} (m : CM α) (f : α → CM (Except CErr Pt)) (c : Composer)
+    (h : ∀ a c', FbOutcome ((f a).run c').1) : FbOutcome ((m >>= f).run c).1 := by
+  rw [run_bind']; exact h _ _
+
+theorem appendFixedBaseSignedDigits_outcome (j : Nat) (g : Pt) (d : List Int) (c : Composer) :
+    FbOutcome ((appendFixedBaseSignedDigits j g d).run c).1 := by
+  unfold appendFixedBaseSignedDigits
+  apply bind_outcome
+  intro _ c1
+  split
+  · left; rfl
+  · simp only []
+    apply bind_outcome; intro st c2
+    apply bind_outcome; intro _ c3
+    apply bind_outcome; intro _ c4
+    apply bind_outcome; intro _ c5
+    apply bind_outcome; intro _ c6
+    apply bind_outcome; intro _ c7
+    apply bind_outcome; intro _ c8
+    apply bind_outcome; intro _ c9
+    apply bind_outcome; intro _ c10
+    right
+    exact ⟨_, rfl⟩
+
+/-- **`component_mul_generator`**, host side: the `Z = 0` test comes first (no projection of a
+    degenerate point is ever attempted), then `is_on_curve`, then `is_prime_order`; a generator
+    failing any of them is rejected with `JubJubGeneratorNotPrimeOrder`; then a scalar value
+    `≥ r_J` is rejected with `JubJubScalarMalformed`; the state is unchanged in both cases.
+    Otherwise the fixed-base gates are laid down for the affine generator `(U/Z, V/Z)`. -/
+theorem componentMulGenerator_run (j : Nat) (e : Ext) (c : Composer) :
+    (componentMulGenerator j e).run c =
+      if e.z = 0 ∨ e.onCurve = false ∨ e.primeOrder = false then (.error .generatorNotPrime, c)
+      else if RJ ≤ c.val j then (.error .scalarMalformed, c)
+      else (appendFixedBaseSignedDigits j e.aff (wnaf2 (c.val j))).run c := by
+  unfold componentMulGenerator
+  by_cases h : e.z = 0 ∨ e.onCurve = false ∨ e.primeOrder = false
+  · rw [if_pos h]
+    have hb : (e.z == 0 || !e.onCurve || !e.primeOrder) = true := by
+      rcases h with h | h | h <;> simp [h]
+    simp only [hb]; rfl
+  · rw [if_neg h]
+    have hb : (e.z == 0 || !e.onCurve || !e.primeOrder) = false := by
+      simp only [not_or, Bool.not_eq_false] at h
+      simp [h.1, h.2.1, h.2.2]
+    simp only [hb]
+    have hz : e.z ≠ 0 := fun hz => h (Or.inl hz)
+    show (getVal j >>= fun s => if s ≥ RJ then pure (Except.error CErr.scalarMalformed)
+      else appendFixedBaseSignedDigits j ((e.toAffine?).getD Pt.id) (wnaf2 s)).run c = _
+    rw [run_bind', getVal_run, Ext.toAffine?_of_ne hz]
+    simp only [Option.getD_some]
+    by_cases h2 : RJ ≤ c.val j
+    · rw [if_pos h2, if_pos h2]; rfl
+    · rw [if_neg h2, if_neg h2]; rfl
+
+
+/-! ### the decisions as equivalences -/
+
+theorem appendPoint_degenerate_iff (e : Ext) (c : Composer) :
+    ((appendPoint e).run c).1 = .error .degenerate ↔ e.z = 0 := by
+  rw [appendPoint_run]; split <;> simp_all
+
+theorem appendPoint_error_state (e : Ext) (c : Composer) (h : e.z = 0) :
+    (appendPoint e).run c = (.error .degenerate, c) := by
+  rw [appendPoint_run, if_pos h]
+
+theorem appendPoint_ok (e : Ext) (c : Composer) (h : e.z ≠ 0) :
+    (appendPoint e).run c = (.ok (c.wit.size, c.wit.size + 1), apS e.aff c) := by
+  rw [appendPoint_run, if_neg h]
+
+theorem appendPublicPoint_degenerate_iff (e : Ext) (c : Composer) :
+    ((appendPublicPoint e).run c).1 = .error .degenerate ↔ e.z = 0 := by
+  rw [appendPublicPoint_run]; split <;> simp_all
+
+theorem assertEqualPublicPoint_degenerate_iff (p : Pt) (e : Ext) (c : Composer) :
+    ((assertEqualPublicPoint p e).run c).1 = .error .degenerate ↔ e.z = 0 := by
+  rw [assertEqualPublicPoint_run]; split <;> simp_all
+
+theorem appendConstantPoint_degenerate_iff (e : Ext) (c : Composer) :
+    ((appendConstantPoint e).run c).1 = .error .degenerate ↔ e.z = 0 := by
+  rw [appendConstantPoint_run]
+  split
+  · simp_all
+  · split <;> simp_all
+
+theorem appendConstantPoint_notTorsionFree_iff (e : Ext) (c : Composer) :
+    ((appendConstantPoint e).run c).1 = .error .notTorsionFree ↔
+      e.z ≠ 0 ∧ ¬ (e.onCurve = true ∧ e.torsionFree = true) := by
+  rw [appendConstantPoint_run]
+  split
+  · simp_all
+  · next hz =>
+    split
+    · next h => simp only [Bool.and_eq_false_iff] at h; rcases h with h | h <;> simp_all
+    · next h =>
+      simp only [Bool.and_eq_false_iff, not_or, Bool.not_eq_false] at h
+      simp_all
+
+theorem appendConstantPoint_ok_iff (e : Ext) (c : Composer) :
+    (∃ p, ((appendConstantPoint e).run c).1 = .ok p) ↔
+      e.z ≠ 0 ∧ e.onCurve = true ∧ e.torsionFree = true := by
+  rw [appendConstantPoint_run]
+  split
+  · simp_all
+  · next hz =>
+    split
+    · next h => simp only [Bool.and_eq_false_iff] at h; rcases h with h | h <;> simp_all
+    · next h =>
+      simp only [Bool.and_eq_false_iff, not_or, Bool.not_eq_false] at h
+      simp_all
+
+theorem appendConstantPoint_ok (e : Ext) (c : Composer) (hz : e.z ≠ 0) (h1 : e.onCurve = true)
+    (h2 : e.torsionFree = true) :
+    (appendConstantPoint e).run c = (.ok (c.wit.size, c.wit.size + 1), acpS e.aff c) := by
+  rw [appendConstantPoint_run, if_neg hz, if_neg (by simp [h1, h2])]
+
+theorem appendConstantPoint_error_state (e : Ext) (c : Composer)
+    (h : ¬ (e.z ≠ 0 ∧ e.onCurve = true ∧ e.torsionFree = true)) :
+    ((appendConstantPoint e).run c).2 = c := by
+  rw [appendConstantPoint_run]
+  split
+  · rfl
+  · next hz =>
+    split
+    · rfl
+    · next h' =>
+      simp only [Bool.and_eq_false_iff, not_or, Bool.not_eq_false] at h'
+      exact absurd ⟨hz, h'.1, h'.2⟩ h
+
+/-- the acceptance test of `append_constant_point` in field terms (canonical `Z`) -/
+theorem appendConstantPoint_accepts_iff (e : Ext) (hz : e.z < R) :
+    (e.z ≠ 0 ∧ e.onCurve = true ∧ e.torsionFree = true) ↔
+      toF e.z ≠ 0 ∧ OnCurveP e.affF ∧ e.affF.1 * e.affF.2 * toF e.z = toF e.t1 * toF e.t2 ∧
+      smulF RJ e.affF = idF := by
+  have hzz : toF e.z ≠ 0 ↔ e.z ≠ 0 := by rw [Ne, toF_eq_zero_of_lt hz]
+  constructor
+  · rintro ⟨h0, h1, h2⟩
+    obtain ⟨-, hc, ht⟩ := (Ext.onCurve_iff e).mp h1
+    exact ⟨hzz.mpr h0, hc, ht, (Ext.torsionFree_iff h1 hz).mp h2⟩
+  · rintro ⟨h0, hc, ht, hk⟩
+    have h1 : e.onCurve = true := (Ext.onCurve_iff e).mpr ⟨hzz.mp h0, hc, ht⟩
+    exact ⟨hzz.mp h0, h1, (Ext.torsionFree_iff h1 hz).mpr hk⟩
+
+theorem componentMulGenerator_generatorNotPrime_iff (j : Nat) (e : Ext) (c : Composer) :
+    ((componentMulGenerator j e).run c).1 = .error .generatorNotPrime ↔
+      (e.z = 0 ∨ e.onCurve = false ∨ e.primeOrder = false) := by
+  rw [componentMulGenerator_run]
+  split
+  · next h => simp [h]
+  · next h =>
+    simp only [h, iff_false]
+    split
+    · simp
+    · rcases appendFixedBaseSignedDigits_outcome j e.aff (wnaf2 (c.val j)) c with h' | ⟨p, h'⟩ <;>
+        rw [h'] <;> simp
+
+theorem componentMulGenerator_scalarMalformed_iff (j : Nat) (e : Ext) (c : Composer) :
+    ((componentMulGenerator j e).run c).1 = .error .scalarMalformed ↔
+      ¬ (e.z = 0 ∨ e.onCurve = false ∨ e.primeOrder = false) ∧ RJ ≤ c.val j := by
+  rw [componentMulGenerator_run]
+  split
+  · next h => simp [h]
+  · next h =>
+    simp only [h, not_false_eq_true, true_and]
+    split
+    · next h2 => simp [h2]
+    · next h2 =>
+      simp only [h2, iff_false]
+      rcases appendFixedBaseSignedDigits_outcome j e.aff (wnaf2 (c.val j)) c with h' | ⟨p, h'⟩ <;>
+        rw [h'] <;> simp
+
+theorem componentMulGenerator_error_state (j : Nat) (e : Ext) (c : Composer)
+    (h : (e.z = 0 ∨ e.onCurve = false ∨ e.primeOrder = false) ∨ RJ ≤ c.val j) :
+    ((componentMulGenerator j e).run c).2 = c := by
+  rw [componentMulGenerator_run]
+  split
+  · rfl
+  · next h1 =>
+    rcases h with h | h
+    · exact absurd h h1
+    · rw [if_pos h]
+
+/-- the generator test of `component_mul_generator` in field terms (canonical coordinates):
+    accepted iff `Z ≠ 0`, the affine point is on the curve, `T1·T2 = U·V/Z`, `[r_J]G = O` and
+    `G ≠ O`. -/
+theorem componentMulGenerator_accepts_iff (e : Ext) (hr : e.Red) :
+    ¬ (e.z = 0 ∨ e.onCurve = false ∨ e.primeOrder = false) ↔
+      toF e.z ≠ 0 ∧ OnCurveP e.affF ∧ e.affF.1 * e.affF.2 * toF e.z = toF e.t1 * toF e.t2 ∧
+      smulF RJ e.affF = idF ∧ e.affF ≠ idF := by
+  have hz := hr.2.2
+  have hzz : toF e.z ≠ 0 ↔ e.z ≠ 0 := by rw [Ne, toF_eq_zero_of_lt hz]
+  simp only [not_or, Bool.not_eq_false]
+  constructor
+  · rintro ⟨h0, h1, h2⟩
+    obtain ⟨-, hc, ht⟩ := (Ext.onCurve_iff e).mp h1
+    obtain ⟨hk, hne⟩ := (Ext.primeOrder_iff h1 hr).mp h2
+    exact ⟨hzz.mpr h0, hc, ht, hk, hne⟩
+  · rintro ⟨h0, hc, ht, hk, hne⟩
+    have h1 : e.onCurve = true := (Ext.onCurve_iff e).mpr ⟨hzz.mp h0, hc, ht⟩
+    exact ⟨hzz.mp h0, h1, (Ext.primeOrder_iff h1 hr).mpr ⟨hk, hne⟩⟩
+
+
+/-! ### concrete instances (non-vacuity) -/
+
+theorem affF_ofAffine (p : Pt) : (Ext.ofAffine p).affF = toFP p := by
+  unfold Ext.affF Ext.ofAffine toFP
+  simp
+
+theorem ofAffine_red {p : Pt} (h1 : p.1 < R) (h2 : p.2 < R) : (Ext.ofAffine p).Red :=
+  ⟨h1, h2, Nat.mod_lt _ R_pos⟩
+
+theorem exG_ext_onCurve : (Ext.ofAffine exG).onCurve = true := by decide +kernel
+theorem exG_ext_torsionFree : (Ext.ofAffine exG).torsionFree = true := by decide +kernel
+theorem exG_ext_primeOrder : (Ext.ofAffine exG).primeOrder = true := by decide +kernel
+theorem id_ext_not_primeOrder : Ext.id.primeOrder = false := by decide +kernel
+
+/-- `[r_J]·exG = O` in the group law (through the `mulBits`–`smulF` bridge) -/
+theorem exG_torsion : smulF RJ (toFP exG) = idF := by
+  have h := (Ext.torsionFree_iff exG_ext_onCurve (Nat.mod_lt _ R_pos)).mp exG_ext_torsionFree
+  rwa [affF_ofAffine] at h
+
+theorem exG_ne_id : toFP exG ≠ idF := by
+  have h := (Ext.primeOrder_iff exG_ext_onCurve (ofAffine_red exG_lt.1 exG_lt.2)).mp
+    exG_ext_primeOrder
+  rw [affF_ofAffine] at h
+  exact h.2
+
+/-- the point `(0, −1)` of order 2, extended and in the field -/
+def exT2 : Ext := ⟨0, R - 1, 1, 0, 0⟩
+def exT2F : PtF := (0, -1)
+
+theorem exT2_onCurve : exT2.onCurve = true := by decide +kernel
+theorem exT2_not_torsionFree : exT2.torsionFree = false := by decide +kernel
+
+theorem exT2F_on_curve : OnCurveP exT2F := by
+  unfold OnCurveP OnCurveF exT2F; ring
+
+theorem exT2F_two : smulF 2 exT2F = idF := by
+  rw [smulF_two]; unfold addF exT2F idF; simp
+
+theorem exT2F_ne_id : exT2F ≠ idF := by
+  unfold exT2F idF
+  intro h
+  rw [Prod.mk.injEq] at h
+  exact neg_one_ne_one_F h.2
+
+theorem RJ_odd : RJ = (RJ / 2) * 2 + 1 := by decide +kernel
+
+/-- `[r_J](0, −1) = (0, −1) ≠ O`: a curve point outside the prime-order subgroup -/
+theorem exT2F_not_torsion : smulF RJ exT2F ≠ idF := by
+  have h : smulF RJ exT2F = exT2F := by
+    rw [RJ_odd, smulF_succ, smulF_mul _ _ exT2F_on_curve, exT2F_two, smulF_id, id_addF]
+  rw [h]; exact exT2F_ne_id
+
+/-- a concrete composer: `initialized` plus the point `p` on the wires `(6, 7)` -/
+def tfExC (p : Pt) : Composer := apS p initialized
+
+theorem tfExC_wf (p : Pt) : WF (tfExC p) := apS_wf p _ initialized_wf
+
+theorem tfExC_alloc (p : Pt) : PtAlloc (tfExC p) (6, 7) := by
+  have h : (tfExC p).wit.size = 6 + 2 := by
+    rw [← initialized_wit_size]; exact (apS_appends p initialized).wit
+  exact ⟨by rw [h]; decide, by rw [h]; decide⟩
+
+theorem tfExC_val (p : Pt) : ptW (tfExC p).val (6, 7) = toFP p := by
+  have h0 := apS_val0 p initialized
+  have h1 := apS_val1 p initialized
+  rw [initialized_wit_size] at h0 h1
+  unfold tfExC
+  rw [ptW_mk, h0, h1, toF_mod, toF_mod]; rfl
+
+theorem tfExC_val_nat (p : Pt) : (tfExC p).val 6 = p.1 % R ∧ (tfExC p).val 7 = p.2 % R := by
+  have h0 := apS_val0 p initialized
+  have h1 := apS_val1 p initialized
+  rw [initialized_wit_size] at h0 h1
+  exact ⟨h0, h1⟩
+
+theorem toFP_exT2 : toFP (0, R - 1) = exT2F := by
+  unfold toFP exT2F; simp [toF_R_sub_one]
 
 end Composer
 end Plonk
